@@ -137,14 +137,41 @@ type ZvTower struct {
 	Ref ZvAny  `json:"ref"`
 }
 
+// ZvTwin is registered under TWO names, "zvtwin" and "ZvTwin" (as the library
+// registers nestouter/NestOuter and nestinner/NestInner); ZvCrew carries it
+// through a pointer and an interface, and a library struct that has two names.
+type ZvTwin struct {
+	N string `json:"n"`
+	K int64  `json:"k"`
+}
+
+type ZvCrew struct {
+	Call string          `json:"call"`
+	Cap  *ZvTwin         `json:"cap"`
+	Rel  ZvAny           `json:"rel"`
+	Nest *zygo.NestOuter `json:"nest"`
+}
+
+func (p *ZvTwin) ZvTag() string  { return "zvtwin" }
+func (p *ZvCrew) ZvTag() string  { return "zvcrew" }
 func (p *ZvTower) ZvTag() string { return "zvtower" }
-func (p *ZvLeaf) ZvTag() string  { return "zvleaf" }
-func (p *ZvPair) ZvTag() string  { return "zvpair" }
-func (p *ZvEmb) ZvTag() string   { return "zvemb" }
-func (p *ZvOdd) ZvTag() string   { return "zvodd" }
-func (p *ZvBox) ZvTag() string   { return "zvbox" }
-func (p *ZvNode) ZvTag() string  { return "zvnode" }
-func (p *ZvWrap) ZvTag() string  { return "zvwrap" }
+
+// Self: the record is the RECEIVER of the method, i.e. it is converted
+// implicitly by (_method r Self:) unless a Go object is already attached to it.
+func (p *ZvLeaf) Self() *ZvLeaf   { giLastArg = p; return p }
+func (p *ZvOdd) Self() *ZvOdd     { giLastArg = p; return p }
+func (p *ZvBox) Self() *ZvBox     { giLastArg = p; return p }
+func (p *ZvNode) Self() *ZvNode   { giLastArg = p; return p }
+func (p *ZvPair) Self() *ZvPair   { giLastArg = p; return p }
+func (p *ZvTower) Self() *ZvTower { giLastArg = p; return p }
+func (p *ZvCrew) Self() *ZvCrew   { giLastArg = p; return p }
+func (p *ZvLeaf) ZvTag() string   { return "zvleaf" }
+func (p *ZvPair) ZvTag() string   { return "zvpair" }
+func (p *ZvEmb) ZvTag() string    { return "zvemb" }
+func (p *ZvOdd) ZvTag() string    { return "zvodd" }
+func (p *ZvBox) ZvTag() string    { return "zvbox" }
+func (p *ZvNode) ZvTag() string   { return "zvnode" }
+func (p *ZvWrap) ZvTag() string   { return "zvwrap" }
 
 // ZvHost carries the identity methods: (_method host EchoLeaf: r) converts r
 // to its Go struct (the implicit conversion of a method argument) and hands the
@@ -160,6 +187,12 @@ func (h *ZvHost) EchoNode(x *ZvNode) *ZvNode { giLastArg = x; return x }
 func (h *ZvHost) EchoWrap(x *ZvWrap) *ZvWrap { giLastArg = x; return x }
 func (h *ZvHost) EchoPair(x *ZvPair) *ZvPair { giLastArg = x; return x }
 func (h *ZvHost) EchoEmb(x *ZvEmb) *ZvEmb    { giLastArg = x; return x }
+func (h *ZvHost) EchoTwin(x *ZvTwin) *ZvTwin { giLastArg = x; return x }
+func (h *ZvHost) EchoCrew(x *ZvCrew) *ZvCrew { giLastArg = x; return x }
+func (h *ZvHost) EchoNest(x *zygo.NestOuter) *zygo.NestOuter {
+	giLastArg = x
+	return x
+}
 func (h *ZvHost) EchoTower(x *ZvTower) *ZvTower {
 	giLastArg = x
 	return x
@@ -174,18 +207,21 @@ type giTypeInfo struct {
 	goName  string // Go type name (as dumped)
 	factory func() any
 	echo    string
+	second  string // a second name the type is registered under ("" if none)
 }
 
 var giTypes = []giTypeInfo{
-	{"zvleaf", "ZvLeaf", func() any { return &ZvLeaf{} }, "EchoLeaf"},
-	{"zvodd", "ZvOdd", func() any { return &ZvOdd{} }, "EchoOdd"},
-	{"zvbox", "ZvBox", func() any { return &ZvBox{} }, "EchoBox"},
-	{"zvnode", "ZvNode", func() any { return &ZvNode{} }, "EchoNode"},
-	{"zvwrap", "ZvWrap", func() any { return &ZvWrap{} }, "EchoWrap"},
-	{"zvpair", "ZvPair", func() any { return &ZvPair{} }, "EchoPair"},
-	{"zvemb", "ZvEmb", func() any { return &ZvEmb{} }, "EchoEmb"},
-	{"zvtower", "ZvTower", func() any { return &ZvTower{} }, "EchoTower"},
-	{"zvhost", "ZvHost", func() any { return &ZvHost{} }, ""},
+	{"zvleaf", "ZvLeaf", func() any { return &ZvLeaf{} }, "EchoLeaf", ""},
+	{"zvodd", "ZvOdd", func() any { return &ZvOdd{} }, "EchoOdd", ""},
+	{"zvbox", "ZvBox", func() any { return &ZvBox{} }, "EchoBox", ""},
+	{"zvnode", "ZvNode", func() any { return &ZvNode{} }, "EchoNode", ""},
+	{"zvwrap", "ZvWrap", func() any { return &ZvWrap{} }, "EchoWrap", ""},
+	{"zvpair", "ZvPair", func() any { return &ZvPair{} }, "EchoPair", ""},
+	{"zvemb", "ZvEmb", func() any { return &ZvEmb{} }, "EchoEmb", ""},
+	{"zvtower", "ZvTower", func() any { return &ZvTower{} }, "EchoTower", ""},
+	{"zvtwin", "ZvTwin", func() any { return &ZvTwin{} }, "EchoTwin", "ZvTwin"},
+	{"zvcrew", "ZvCrew", func() any { return &ZvCrew{} }, "EchoCrew", ""},
+	{"zvhost", "ZvHost", func() any { return &ZvHost{} }, "", ""},
 }
 
 var giRegisterOnce sync.Once
@@ -197,11 +233,16 @@ func giRegister() {
 		zygo.RegisterDemoStructs()
 		for _, t := range giTypes {
 			f := t.factory
-			zygo.GoStructRegistry.RegisterUserdef(&zygo.RegisteredType{
+			rt := &zygo.RegisteredType{
 				GenDefMap: true,
 				Factory: func(env *zygo.Zlisp, h *zygo.SexpHash) (interface{}, error) {
 					return f(), nil
-				}}, true, t.name)
+				}}
+			if t.second != "" {
+				zygo.GoStructRegistry.RegisterUserdef(rt, true, t.name, t.second)
+			} else {
+				zygo.GoStructRegistry.RegisterUserdef(rt, true, t.name)
+			}
 		}
 	})
 }
